@@ -438,6 +438,8 @@ def check_crystals(ctx, case, real, reply):
     ctx.fail("exact_rank", key, case, lats)
   if set(f for l in lats for f in l) != set(range(n)):
     ctx.fail("every_feature_used", key, case, lats)
+  # not a clause of C17 and not guaranteed by the code (Props/C17.lean `CrystalsNoRepeats`): only made visible
+  ctx.count("crystals:repeat_inside_lattice:%d" % int(any(len(set(l)) != len(l) for l in lats)))
 
 
 def gen_crystals(rng):
